@@ -142,7 +142,7 @@ int main(int argc, char** argv) {
       { // the C wrapper and the evaluator object must agree with the member function
         std::vector<int> c2(nd, -12345); int ok2 = tablesearchcenters(&ct, x.data(), c2.data());
         auto ev = t.get_evaluator<float>(); std::vector<int> c3(nd, -12345); bool ok3 = ev.searchcenters(x.data(), c3.data());
-        if ((ok2 != 0) != ok || ok3 != ok || (ok && (c2 != c || c3 != c))) { path_mismatch++; fprintf(fc, "X lookup-paths-differ\n"); fprintf(fi, "mismatch\n"); }
+        if ((ok2 == 0) != ok || ok3 != ok || (ok && (c2 != c || c3 != c))) { path_mismatch++; fprintf(fc, "X lookup-paths-differ\n"); fprintf(fi, "mismatch\n"); }
         double v = t(x.data());
         if (!ok && !(v == 0 && !std::signbit(v))) { path_mismatch++; fprintf(fc, "X callop-nonzero-on-reject\n"); fprintf(fi, "mismatch %llu\n", (unsigned long long)bits(v)); }
         if (ok) { double w = t.ndsplineeval(x.data(), c.data(), 0); if (cbits(v) != cbits(w)) { path_mismatch++; fprintf(fc, "X callop-differs-from-eval\n"); fprintf(fi, "mismatch %llu %llu\n", (unsigned long long)cbits(v), (unsigned long long)cbits(w)); } }
@@ -196,7 +196,8 @@ int main(int argc, char** argv) {
               if (cbits(gm[j + 1]) != vj) X("gradient lane != single-derivative evaluation", cbits(gm[j + 1]), vj); }
           }
           if (!dblg) { try { ndsplineeval_gradient(&ct, x.data(), c.data(), gc.data()); } catch (std::exception&) { threw_c = true; }
-            if (threw_c != threw) X("C gradient refusal differs", threw_c, threw);
+            if (threw_c) X("C gradient wrapper let an exception escape", threw_c, threw);   // the C wrapper reports refusal by NaN results
+            if (threw && !threw_c) for (uint32_t j = 0; j <= nd; j++) if (gc[j] == gc[j]) X("C gradient wrapper: refused request did not yield NaN", cbits(gc[j]), 0);
             if (!threw && !threw_c) for (uint32_t j = 0; j <= nd; j++) if (cbits(gm[j]) != cbits(gc[j])) X("C gradient lane != member lane", cbits(gm[j]), cbits(gc[j])); }
         }
       } else if (profile == "C02") {
